@@ -90,11 +90,11 @@ global added to the code – a memo, a marker, a digest in place of the data –
 even if no explored input behaves differently. -/
 theorem state_shape_matches_source :
     Shapes.globalState = [] ∧
-    Shapes.linkFormatWrite = [("write", "&'amutT"), ("is_first", "bool"), ("add_newlines", "bool"), ("error", "Option<core::fmt::Error>")] ∧
-    Shapes.linkAttributeWrite = [("0", "&'bmutLinkFormatWrite<'a,T>")] ∧
-    Shapes.linkFormatParser = [("inner", "&'astr")] ∧
-    Shapes.linkAttributeParser = [("inner", "&'astr")] ∧
-    Shapes.unquote = [("inner", "core::str::Chars<'a>"), ("state", "UnquoteState")] :=
+    Shapes.linkFormatWrite = [("add_newlines", "bool"), ("error", "Option<Error>"), ("is_first", "bool"), ("write", "&mutT")] ∧
+    Shapes.linkAttributeWrite = [("0", "&mutLinkFormatWrite<T>")] ∧
+    Shapes.linkFormatParser = [("inner", "&str")] ∧
+    Shapes.linkAttributeParser = [("inner", "&str")] ∧
+    Shapes.unquote = [("inner", "Chars"), ("state", "UnquoteState")] :=
   ⟨ShapeTie.no_global_state, ShapeTie.linkFormatWrite, ShapeTie.linkAttributeWrite, ShapeTie.linkFormatParser, ShapeTie.linkAttributeParser, ShapeTie.unquote⟩
 
 end CoapLite.C18
